@@ -133,13 +133,63 @@ def _classify(msg):
     return 'other'
 
 
+def _isolable(unit, lines, diags):
+    """Indices of fn items (not slices, not already assumed) containing the primary span of a rustc / VIR error."""
+    from . import rustscan
+    idx = set()
+    for d in diags:
+        if d.get('level') != 'error' or _classify(d.get('message', '')) != 'other':
+            continue
+        sps = [sp for sp in d.get('spans', []) if sp.get('is_primary')]
+        if not sps:
+            continue
+        for sp in sps:
+            ln = sp.get('line_start')
+            if not ln or ln > len(lines) or lines[ln - 1].item is None:
+                return set()
+            it = unit.items[lines[ln - 1].item]
+            if it.kind != 'item' or it.trusted or rustscan.parse_path(it.path_text)[-1][0] != 'fn':
+                return set()
+            idx.add(lines[ln - 1].item)
+    return idx
+
+
 def run_unit(unit_path, kf_on=True, vacuity=False, extra_args=(), timeout=900, keep=True, seed=None):
+    """Runs the unit; when rustc / the Verus front end rejects the body of some fn items (construct outside the
+    supported subset, call to a helper that is not under contract) those fns are isolated (body dropped, contract
+    kept for callers) and the unit is run again so that every other function is still decided."""
+    isolate = set()
+    why = []
+    for _round in range(3):
+        res = _run_unit(unit_path, kf_on, vacuity, extra_args, timeout, keep, seed, isolate)
+        more = getattr(res, 'isolable', set()) - isolate
+        if not more:
+            break
+        why.append(res.reason)
+        isolate |= more
+    if isolate and vacuity:
+        return res
+    if isolate and res.status != 'undecided':
+        names = [res.unit.items[i].name for i in sorted(isolate)]
+        res.isolated = names
+        note = 'functions not processable and left undecided: %s (%s)' % (', '.join(names), ' ; '.join(why)[:400])
+        if res.status == 'ok':
+            res.status = 'undecided'
+            res.reason = note + '; every other obligation of the unit holds'
+        else:
+            res.reason = (res.reason + ' ; ' if res.reason else '') + note
+    return res
+
+
+def _run_unit(unit_path, kf_on, vacuity, extra_args, timeout, keep, seed, isolate):
     unit = Unit(unit_path)
     res = UnitResult(unit)
+    res.isolable = set()
+    res.isolated = []
     t0 = time.time()
     try:
-        lines = unit.build(kf_on=kf_on, vacuity=vacuity)
-        ok, bad = unit.unweave_ok(lines)
+        lines = unit.build(kf_on=kf_on, vacuity=vacuity, isolate=isolate)
+        ok, bad = unit.unweave_ok(lines, skip=isolate)
         res.unweave = ok
         if not ok:
             raise UnitError('unweave mismatch in ' + bad)
@@ -186,6 +236,7 @@ def run_unit(unit_path, kf_on=True, vacuity=False, extra_args=(), timeout=900, k
             res.status = 'undecided'
             msgs = [d.get('message', '') for d in diags if d.get('level') == 'error'][:5]
             res.reason = 'verus produced no verification result (rustc/VIR error): ' + ' | '.join(msgs or [stderr[-500:]])
+            res.isolable = _isolable(unit, lines, diags)
             return res
         vr = js['verification-results']
         res.verified = vr.get('verified', 0)
@@ -204,6 +255,7 @@ def run_unit(unit_path, kf_on=True, vacuity=False, extra_args=(), timeout=900, k
             res.status = 'undecided'
             msgs = [d.get('message', '') for d in diags if d.get('level') == 'error'][:5]
             res.reason = 'verus front-end error: ' + ' | '.join(msgs)
+            res.isolable = _isolable(unit, lines, diags)
             return res
         # item line ranges in the woven file
         for d in errs:
@@ -262,6 +314,11 @@ def run_unit(unit_path, kf_on=True, vacuity=False, extra_args=(), timeout=900, k
                 f.tags.update(unit.items[f.item].auto)
                 f.labels.append('auto')
             res.failures.append(f)
+        if vacuity and any(f.kind == 'other' for f in res.failures):
+            res.status = 'undecided'
+            res.reason = 'non-verification error: ' + ' | '.join(f.message for f in res.failures if f.kind == 'other')[:600]
+            res.isolable = _isolable(unit, lines, diags)
+            return res
         if vacuity:
             probes = [i for i, l in enumerate(lines) if l.label == 'vac']
             fired = set()
@@ -282,6 +339,7 @@ def run_unit(unit_path, kf_on=True, vacuity=False, extra_args=(), timeout=900, k
         elif any(f.kind == 'other' for f in res.failures):
             res.status = 'undecided'
             res.reason = 'non-verification error: ' + ' | '.join(f.message for f in res.failures if f.kind == 'other')[:600]
+            res.isolable = _isolable(unit, lines, diags)
         else:
             res.status = 'failed'
         return res
